@@ -352,6 +352,16 @@ class P:
                 raise Bad("tuple expression")
             self.eat(")")
             return e
+        if v == "[" and k == "op":
+            # `[x; n]` (array repeat) -- the only array literal the translated functions use
+            self.eat("[")
+            x = self.expr()
+            if not self.at(";"):
+                raise Bad("array literal")
+            self.eat(";")
+            n = self.expr()
+            self.eat("]")
+            return ("call", ("path", ["array_repeat"]), [x, n])
         if v == "{" and k == "op":
             return self.block()
         if k == "id" and v == "unsafe":
@@ -774,6 +784,19 @@ TARGETS = [
     ("repr.rs", "impl Repr", "is_heap_buffer", "Repr.is_heap_buffer_body", False),
     ("repr.rs", "impl Repr", "is_static_buffer", "Repr.is_static_buffer_body", False),
     ("lib.rs", "impl LeanString", "clear", "LeanString.clear", True),
+    ("lib.rs", "impl LeanString", "try_reserve", "LeanString.try_reserve", True),
+    ("lib.rs", "impl LeanString", "try_shrink_to_fit", "LeanString.try_shrink_to_fit", True),
+    ("lib.rs", "impl LeanString", "try_shrink_to", "LeanString.try_shrink_to", True),
+    ("lib.rs", "impl LeanString", "try_push", "LeanString.try_push", True),
+    ("lib.rs", "impl LeanString", "try_pop", "LeanString.try_pop", True),
+    ("lib.rs", "impl LeanString", "try_push_str", "LeanString.try_push_str", True),
+    ("lib.rs", "impl LeanString", "try_remove", "LeanString.try_remove", True),
+    ("lib.rs", "impl LeanString", "try_insert", "LeanString.try_insert", True),
+    ("lib.rs", "impl LeanString", "try_insert_str", "LeanString.try_insert_str", True),
+    ("lib.rs", "impl LeanString", "try_truncate", "LeanString.try_truncate", True),
+    ("lib.rs", "impl LeanString", "capacity", "LeanString.capacity", True),
+    ("lib.rs", "impl LeanString", "len", "LeanString.len", True),
+    ("lib.rs", "impl LeanString", "is_heap_allocated", "LeanString.is_heap_allocated", True),
 ]
 # expected Lean signatures (used for the stub of a poisoned function, and checked against the source)
 SIGS = {
@@ -787,6 +810,13 @@ SIGS = {
     "Repr.remove": ([("idx", "Nat")], "Rs Chr"), "Repr.pop": ([], "Rs (Option Chr)"),
     "Repr.is_heap_buffer_body": ([], "Bool"), "Repr.is_static_buffer_body": ([], "Bool"),
     "LeanString.clear": ([], "Unit"),
+    "LeanString.try_reserve": ([("additional", "Nat")], "Rs Unit"), "LeanString.try_shrink_to_fit": ([], "Rs Unit"),
+    "LeanString.try_shrink_to": ([("min_capacity", "Nat")], "Rs Unit"), "LeanString.try_push": ([("ch", "Chr")], "Rs Unit"),
+    "LeanString.try_pop": ([], "Rs (Option Chr)"), "LeanString.try_push_str": ([("string", "Str")], "Rs Unit"),
+    "LeanString.try_remove": ([("idx", "Nat")], "Rs Chr"), "LeanString.try_insert": ([("idx", "Nat"), ("ch", "Chr")], "Rs Unit"),
+    "LeanString.try_insert_str": ([("idx", "Nat"), ("string", "Str")], "Rs Unit"),
+    "LeanString.try_truncate": ([("new_len", "Nat")], "Rs Unit"), "LeanString.capacity": ([], "Nat"), "LeanString.len": ([], "Nat"),
+    "LeanString.is_heap_allocated": ([], "Bool"),
 }
 
 def pick64(variants):
